@@ -202,7 +202,7 @@ func runC01(c *report.Ctx) {
 	}
 
 	// ---- maturity classification atoms ----------------------------------------------
-	ruleMaturityAtoms(c)
+	ruleMaturityAtoms(c, nil)
 
 	// ---- relevance filter totality (shared with C16/C19) --------------------------------
 	ruleClassGate(c)
@@ -377,9 +377,15 @@ func indexAmong(sites []ssa.Instruction, s ssa.Instruction, i, np int) int {
 }
 
 // ruleMaturityAtoms: guards of the balance classification.
-func ruleMaturityAtoms(c *report.Ctx) {
+// only (optional) restricts the rule to some BalanceDetail fields — the clause of the calling property (C10: the two
+// withdrawable totals) — and then leaves the AddCredits part out.
+func ruleMaturityAtoms(c *report.Ctx, only map[string]bool) {
 	p := c.P
-	c.Rule("maturity-atoms", "ScriptAddressBalance adds a coin to Spendable/WithdrawableStaking/WithdrawableBinding only under confs>=minConf, confs>=maturity, not-spent-in-pool and the class atom; AddCredits stores CoinbaseMaturity under the coinbase atom", 4)
+	floor := 4
+	if only != nil {
+		floor = len(only)
+	}
+	c.Rule("maturity-atoms", "ScriptAddressBalance adds a coin to Spendable/WithdrawableStaking/WithdrawableBinding only under confs>=minConf, confs>=maturity, not-spent-in-pool and the class atom; AddCredits stores CoinbaseMaturity under the coinbase atom", floor)
 	sab := fn(c, pkgTxmgr, "UtxoStore", "ScriptAddressBalance")
 	bd := p.Type(pkgTxmgr, "BalanceDetail")
 	if sab == nil || bd == nil {
@@ -388,6 +394,9 @@ func ruleMaturityAtoms(c *report.Ctx) {
 	isBindingFn := fn(c, pkgTxmgr, "credit", "isBinding")
 	isStakingFn := fn(c, pkgTxmgr, "credit", "isStaking")
 	for _, field := range []string{"Spendable", "WithdrawableStaking", "WithdrawableBinding", "Total"} {
+		if only != nil && !only[field] {
+			continue
+		}
 		stores := fieldStores(sab, bd, field)
 		// ignore stores in the initialisation loop (composite literal of a fresh allocation)
 		var real []ssa.Instruction
@@ -469,7 +478,7 @@ func ruleMaturityAtoms(c *report.Ctx) {
 	// AddCredits: maturity stored = CoinbaseMaturity under isCoinBase else PkScript.Maturity()
 	ac := fn(c, pkgTxmgr, "UtxoStore", "AddCredits")
 	cred := p.Type(pkgTxmgr, "credit")
-	if ac != nil && cred != nil {
+	if ac != nil && cred != nil && only == nil {
 		found := false
 		for _, s := range fieldStores(ac, cred, "maturity") {
 			st := s.(*ssa.Store)
